@@ -54,6 +54,20 @@ fn main() {
     let rest = &args[1..];
     match args[0].as_str() {
         "shape" => cmd_shape::run(rest),
+        "fontgen-coq" => {
+            // smoke test of the Coq printer: a small font with one of several table kinds
+            use fontgen::coq::ToCoq;
+            use fontgen::*;
+            let mut f = FontSpec::basic(6).with_basic_vmetrics();
+            f.gdef = Some(Gdef { glyph_classes: vec![(1, 1), (2, 3)], mark_attach_classes: vec![(2, 1)], mark_glyph_sets: vec![vec![2]] });
+            f.gsub = Some(Layout::single_feature(*b"liga", vec![
+                Lookup::one(SubstSubtable::Ligature { coverage: Coverage::Glyphs(vec![1]), ligature_sets: vec![vec![Ligature { glyph: 5, components: vec![2] }]] }),
+                Lookup::one(SubstSubtable::Single1 { coverage: Coverage::Ranges(vec![(3, 4)]), delta: -1 }),
+            ]));
+            f.gpos = Some(Layout::single_feature(*b"kern", vec![Lookup::one(PosSubtable::Single1 { coverage: Coverage::Glyphs(vec![1]), value: ValueRecord::xadv(-30), vf: ValueFormat::NonZero })]));
+            f.kern = Some(vec![KernSubtable { horizontal: true, minimum: false, cross_stream: false, override_: false, pairs: vec![(1, 2, -50)] }]);
+            println!("From Coq Require Import List NArith ZArith.\nFrom RB Require Import Model.Font.\nImport ListNotations.\nDefinition f : font := {}.\nEval vm_compute in (f_num_glyphs f).", f.coq());
+        }
         "fontgen-selftest" => {
             if let Err(e) = fontgen::selftest() {
                 eprintln!("fontgen-selftest: {e}");
